@@ -63,7 +63,7 @@ ArgAspects(ra, oa) ==
 MsgAspects(rec, o) ==
   (IF "time" \in DOMAIN o THEN (IF Near(o.time * 100, rec.t, 100) THEN {} ELSE {"time"}) ELSE {})
   \cup (IF "t" \in DOMAIN o THEN (IF Near(o.t, rec.t, 1) THEN {} ELSE {"time"}) ELSE {})
-  \cup (IF "cname" \in DOMAIN o THEN (IF CharsOf(o.cname) = rec.cname THEN {} ELSE {"conn"}) ELSE {})
+  \cup (IF "cname" \in DOMAIN o THEN (IF CharsOf(o.cname) = rec.shownc THEN {} ELSE {"conn"}) ELSE {})
   \cup (IF o.sent = rec.sent THEN {} ELSE {"dir"})
   \cup (IF o.name = rec.name THEN {} ELSE {"name"})
   \cup ObjAspects(rec.target, o.target, "target")
